@@ -3,6 +3,8 @@ package main
 import (
 	"bytes"
 	"context"
+	"crypto/sha256"
+	"encoding/hex"
 	"fmt"
 	"os"
 	"os/exec"
@@ -137,6 +139,10 @@ type solverResult struct {
 
 var procSem = make(chan struct{}, 16)
 
+// cacheDir holds the proof cache ("" = disabled); cacheHits counts the obligations answered from it in this run.
+var cacheDir string
+var cacheHits int64
+
 func runOne(ctx context.Context, sp solverSpec, file string, timeoutS int) solverResult {
 	procSem <- struct{}{}
 	defer func() { <-procSem }()
@@ -191,6 +197,34 @@ func discharge(dir string, idx int, vc *VC, o *Obligation, timeoutS int, waitAll
 	tq := time.Now()
 	q := queryText(vc, o)
 	atomic.AddInt64(&queryGenNs, int64(time.Since(tq)))
+	// Proof cache: the same function is in the dependency set of several properties, so the very same query is
+	// generated by several checks. A query that a solver has already answered the expected way (unsat for an
+	// obligation, not-unsat for a vacuity cover) is not sent again: the cache key is the SHA-256 of the complete query
+	// text, so any change to the code, the contracts or the theory produces a different key. Only successes are
+	// cached; an obligation that failed is always solved again.
+	ckey := ""
+	if cacheDir != "" {
+		sum := sha256.Sum256([]byte(q))
+		ckey = filepath.Join(cacheDir, o.Expect+"-"+hex.EncodeToString(sum[:]))
+		if data, err := os.ReadFile(ckey); err == nil {
+			parts := strings.SplitN(string(data), "\n", 3)
+			if len(parts) == 3 {
+				o.Status, o.Solver = parts[0], parts[1]
+				o.Output = "cached (identical query answered earlier by " + parts[1] + "): " + parts[2]
+				o.Cached = true
+				atomic.AddInt64(&cacheHits, 1)
+				return
+			}
+		}
+	}
+	defer func() {
+		if ckey != "" && ((o.Expect != "sat" && o.Status == "discharged") || (o.Expect == "sat" && o.Status == "ok")) {
+			tmp := fmt.Sprintf("%s.%d.tmp", ckey, os.Getpid())
+			if os.WriteFile(tmp, []byte(o.Status+"\n"+o.Solver+"\n"+truncate(o.Output, 300)), 0o644) == nil {
+				os.Rename(tmp, ckey)
+			}
+		}
+	}()
 	file := filepath.Join(dir, fmt.Sprintf("q%05d.smt2", idx))
 	if err := os.WriteFile(file, []byte(q), 0o644); err != nil {
 		o.Status = "engine-error"
